@@ -115,6 +115,7 @@ public:
           data(std::move(other.data))
     {
         my_aggregator.initialize_handler(functor{this});
+        other.reset_moved_from();
     }
 
     concurrent_priority_queue( concurrent_priority_queue&& other, const allocator_type& alloc )
@@ -122,6 +123,7 @@ public:
           data(std::move(other.data), alloc)
     {
         my_aggregator.initialize_handler(functor{this});
+        other.reset_moved_from();
     }
 
     concurrent_priority_queue& operator=( const concurrent_priority_queue& other ) {
@@ -143,6 +145,7 @@ public:
             my_size.store(other.my_size.load(std::memory_order_relaxed), std::memory_order_relaxed);
             // The heap in data is ordered by the comparator of its queue
             my_compare = other.my_compare;
+            other.reset_moved_from();
         }
         return *this;
     }
@@ -230,6 +233,13 @@ public:
 
     allocator_type get_allocator() const { return data.get_allocator(); }
 private:
+    // The elements have been moved out of this queue: make the bookkeeping agree with the vector again
+    void reset_moved_from() {
+        data.clear();
+        mark = 0;
+        my_size.store(0, std::memory_order_relaxed);
+    }
+
     enum operation_type {INVALID_OP, PUSH_OP, POP_OP, PUSH_RVALUE_OP};
     enum operation_status {WAIT = 0, SUCCEEDED, FAILED};
 
